@@ -263,10 +263,13 @@ bool exec_str_b(Ctx &c, const Op &op) {
     case S_TO_STD: {
         StrObj *x = pick_str_wf(c, op.a);
         if (!x) { c.skipped = true; return true; }
-        unsigned which = op.b % 10;
+        unsigned which = op.b % 12;
         note_sig(c, op, std::string("obj=") + cl(x) + ",which=" + std::to_string(which));
         c.budget_bytes = x->model.size() * 4;
         as_const(x);
+        // the caller's own std::string handed to the out-parameter overloads is the object being assigned to: it has a previous value
+        const std::string prev = ((op.b / 12) & 1) ? "previous value, longer than any small-string buffer" : "old";
+        std::string outp = prev;
         Scalars sc; decode_utf8_strict(x->model, sc);
         bool lat_ok = true; std::string lat; for (char32_t ch : sc) { if (ch >= 0x100) { lat_ok = false; lat += '?'; } else lat += (char)ch; }
         std::u16string e16; enc_utf16(sc, e16);
@@ -284,10 +287,16 @@ bool exec_str_b(Ctx &c, const Op &op) {
             case 7: { std::wstring w; s.to_std_string(w); std::u16string a; s.to_std_string(a); std::u32string b; s.to_std_string(b); std::u8string d; s.to_std_string(d);
                       if (a != e16 || b != sc || w.size() != sc.size()) ok = false; break; }
             case 8: { std::string r = s.to_std_string(false, false); if (r != lat) ok = false; break; }     // throws when a character is out of range
+            case 10: s.to_std_string(outp, false, false); if (outp != lat) ok = false; break;               // likewise, into the caller's string
+            case 11: s.to_std_string(outp, false, ST::check_validity); if (outp != lat) ok = false; break;  // (deprecated spelling of the same call)
             default: if (s.to_std_string(true, false) != x->model) ok = false; break;
             }
         });
-        settle(c, op, ex, (which == 8 && !lat_ok) ? bit(EX_UNICODE) : 0);
+        settle(c, op, ex, ((which == 8 || which == 10 || which == 11) && !lat_ok) ? bit(EX_UNICODE) : 0);
+        if (which >= 10 && ex != EX_NONE) {
+            if (ex == EX_BAD_ALLOC) { if (outp != prev && !outp.empty()) set_viol(c, "target_not_old_or_empty", "the std::string passed to to_std_string(std::string&, ...) holds neither its previous value nor an empty one after std::bad_alloc"); }
+            else if (outp != prev) set_viol(c, "state_changed_after_throw", "the std::string passed to to_std_string(std::string&, ...) no longer holds its previous value after the call threw");
+        }
         if (!ok) set_viol(c, "value_mismatch", "to_std_*string() result differs from the reference transcoding of the model");
         return true;
     }
@@ -300,8 +309,11 @@ bool exec_str_b(Ctx &c, const Op &op) {
         as_const(x);
         Scalars sc; decode_utf8_strict(x->model, sc);
         std::ostringstream os; std::wostringstream ws;
-        Op o2 = op; o2.fault &= ~F_ALLOC;     // libstdc++ swallows exceptions inside formatted insertion
-        ExcKind ex = run_sut(c, o2, [&] { if (wide) ws << *x->p(); else os << *x->p(); });
+        // libstdc++ swallows exceptions thrown inside its formatted insertion and sets badbit instead: with an allocation fault the
+        // failure must reach the caller one way or the other (std::bad_alloc from string_theory's own part, or badbit from the stream)
+        ExcKind ex = run_sut(c, op, [&] { if (wide) ws << *x->p(); else os << *x->p(); });
+        if (c.fired && ex == EX_NONE && (wide ? ws.bad() : os.bad())) ex = EX_BAD_ALLOC;
+        Op o2 = op;
         settle(c, o2, ex, 0);
         if (ex == EX_NONE) {
             bool ok = wide ? ws.str() == std::wstring(sc.begin(), sc.end()) : os.str() == x->model;
@@ -329,10 +341,10 @@ bool exec_str_b(Ctx &c, const Op &op) {
         ExcKind ex = run_sut(c, op, [&] {
             const S &s = *x->p();
             switch (which) {
-            case 0: new (mem) S(s.substr(sst, cnt)); break;
-            case 1: new (mem) S(s.left(cnt == ST_AUTO_SIZE ? sz : cnt)); break;
-            case 2: new (mem) S(s.right(cnt == ST_AUTO_SIZE ? sz : cnt)); break;
-            default: new (mem) S(s.substr(sst)); break;
+            case 0: FRESH(S, s.substr(sst, cnt)); break;
+            case 1: FRESH(S, s.left(cnt == ST_AUTO_SIZE ? sz : cnt)); break;
+            case 2: FRESH(S, s.right(cnt == ST_AUTO_SIZE ? sz : cnt)); break;
+            default: FRESH(S, s.substr(sst)); break;
             }
         });
         if (settle(c, op, ex, 0)) new_str_result(c, mem, x); else obj_free(mem);
@@ -353,9 +365,9 @@ bool exec_str_b(Ctx &c, const Op &op) {
         ExcKind ex = run_sut(c, op, [&] {
             const S &s = *x->p();
             switch (which) {
-            case 0: new (mem) S(dflt ? s.trim() : s.trim(cs)); break;
-            case 1: new (mem) S(dflt ? s.trim_left() : s.trim_left(cs)); break;
-            default: new (mem) S(dflt ? s.trim_right() : s.trim_right(cs)); break;
+            case 0: FRESH(S, dflt ? s.trim() : s.trim(cs)); break;
+            case 1: FRESH(S, dflt ? s.trim_left() : s.trim_left(cs)); break;
+            default: FRESH(S, dflt ? s.trim_right() : s.trim_right(cs)); break;
             }
         });
         if (settle(c, op, ex, 0)) new_str_result(c, mem, x); else obj_free(mem);
@@ -377,12 +389,12 @@ bool exec_str_b(Ctx &c, const Op &op) {
         void *mem = obj_alloc(sizeof(S));
         ExcKind ex = run_sut(c, op, [&] {
             const S &s = *x->p();
-#define BA(fn) (ov == 0 ? s.fn(n.bytes[0], cs) : ov == 1 ? s.fn(n.bytes.c_str(), cs) : s.fn(ns, cs))
+#define BA(fn) do { if (ov == 0) FRESH(S, s.fn(n.bytes[0], cs)); else if (ov == 1) FRESH(S, s.fn(n.bytes.c_str(), cs)); else FRESH(S, s.fn(ns, cs)); } while (0)
             switch (which) {
-            case 0: new (mem) S(BA(before_first)); break;
-            case 1: new (mem) S(BA(after_first)); break;
-            case 2: new (mem) S(BA(before_last)); break;
-            default: new (mem) S(BA(after_last)); break;
+            case 0: BA(before_first); break;
+            case 1: BA(after_first); break;
+            case 2: BA(before_last); break;
+            default: BA(after_last); break;
             }
 #undef BA
         });
@@ -396,7 +408,7 @@ bool exec_str_b(Ctx &c, const Op &op) {
         c.budget_bytes = x->model.size() * 4;
         as_const(x);
         void *mem = obj_alloc(sizeof(S));
-        ExcKind ex = run_sut(c, op, [&] { new (mem) S((op.b & 1) ? x->p()->to_upper() : x->p()->to_lower()); });
+        ExcKind ex = run_sut(c, op, [&] { FRESH(S, (op.b & 1) ? x->p()->to_upper() : x->p()->to_lower()); });
         if (settle(c, op, ex, 0)) new_str_result(c, mem, x); else obj_free(mem);
         return true;
     }
@@ -437,10 +449,10 @@ bool exec_str_b(Ctx &c, const Op &op) {
         ExcKind ex = run_sut(c, op, [&] {
             const S &s = *x->p();
             switch (ov) {
-            case 0: new (mem) S(s.replace(from.bytes.c_str(), to.bytes.c_str(), cs)); break;
-            case 1: new (mem) S(s.replace(fs, to.bytes.c_str(), cs)); break;
-            case 2: new (mem) S(s.replace(from.bytes.c_str(), ts, cs)); break;
-            default: new (mem) S(s.replace(fs, ts, cs)); break;
+            case 0: FRESH(S, s.replace(from.bytes.c_str(), to.bytes.c_str(), cs)); break;
+            case 1: FRESH(S, s.replace(fs, to.bytes.c_str(), cs)); break;
+            case 2: FRESH(S, s.replace(from.bytes.c_str(), ts, cs)); break;
+            default: FRESH(S, s.replace(fs, ts, cs)); break;
             }
         });
         if (settle(c, op, ex, args_wf ? 0 : bit(EX_UNICODE))) new_str_result(c, mem, x); else obj_free(mem);
@@ -559,26 +571,26 @@ bool exec_str_b(Ctx &c, const Op &op) {
         switch (which) {
         case 0: case 4: case 5: {
             buf_make_room<char>(c); mem = obj_alloc(sizeof(ST::char_buffer));
-            ex = run_sut(c, op, [&] { new (mem) ST::char_buffer(which == 0 ? x->p()->to_utf8() : x->p()->to_latin_1(which == 4)); });
+            ex = run_sut(c, op, [&] { if (which == 0) FRESH(ST::char_buffer, x->p()->to_utf8()); else FRESH(ST::char_buffer, x->p()->to_latin_1(which == 4)); });
             if (settle(c, op, ex, (which == 5 && !lat_ok) ? bit(EX_UNICODE) : 0)) { auto *o = add_buf<char>(c, mem); o->role = ROLE_NEW; o->parent = x->serial; o->model = which == 0 ? x->model : lat; }
             else obj_free(mem);
             break;
         }
         case 1: {
             buf_make_room<char16_t>(c); mem = obj_alloc(sizeof(ST::utf16_buffer));
-            ex = run_sut(c, op, [&] { new (mem) ST::utf16_buffer(x->p()->to_utf16()); });
+            ex = run_sut(c, op, [&] { FRESH(ST::utf16_buffer, x->p()->to_utf16()); });
             if (settle(c, op, ex, 0)) { auto *o = add_buf<char16_t>(c, mem); o->role = ROLE_NEW; o->parent = x->serial; enc_utf16(sc, o->model); } else obj_free(mem);
             break;
         }
         case 2: {
             buf_make_room<char32_t>(c); mem = obj_alloc(sizeof(ST::utf32_buffer));
-            ex = run_sut(c, op, [&] { new (mem) ST::utf32_buffer(x->p()->to_utf32()); });
+            ex = run_sut(c, op, [&] { FRESH(ST::utf32_buffer, x->p()->to_utf32()); });
             if (settle(c, op, ex, 0)) { auto *o = add_buf<char32_t>(c, mem); o->role = ROLE_NEW; o->parent = x->serial; o->model = sc; } else obj_free(mem);
             break;
         }
         default: {
             buf_make_room<wchar_t>(c); mem = obj_alloc(sizeof(ST::wchar_buffer));
-            ex = run_sut(c, op, [&] { new (mem) ST::wchar_buffer(x->p()->to_wchar()); });
+            ex = run_sut(c, op, [&] { FRESH(ST::wchar_buffer, x->p()->to_wchar()); });
             if (settle(c, op, ex, 0)) { auto *o = add_buf<wchar_t>(c, mem); o->role = ROLE_NEW; o->parent = x->serial; o->model.assign(sc.begin(), sc.end()); } else obj_free(mem);
             break;
         }
